@@ -798,6 +798,9 @@ def _stack(interp, name, args, kw, st, node):
                 nsh = (sh[0], sh[1])
             elif len(sh) == 2 and base == "concatenate":
                 nsh = (sh[0].mul(sh[1]),)
+            elif A.is_ragged(sh[1]):
+                # blocks of different heights: the total is an opaque integer of the list
+                nsh = (Dim(0, {("t", T("totalrows", seq.term)): 1}),) + tuple(sh[2:])
             else:
                 nsh = (sh[0].mul(sh[1]),) + tuple(sh[2:])
     elif seq.kind in ("list", "tuple", "unk", "arr"):
